@@ -20,6 +20,11 @@ pub enum Op {
     /// the u128 item whose MurmurHash3 digest under the case's seed is (h1, h2), offered through update():
     /// row bits and every leading-zero count of h2 (column 0..63, h2 = 0) at will
     Digest { h1: u64, h2: u64 },
+    /// n crafted coupons whose rows lie in a narrow band [lo, lo + width) of the k rows (as u16 fractions of k):
+    /// long empty row ranges next to tight clusters (large Golomb high parts in the compressed pair stream)
+    Band { lo: u16, width: u16, n: u16, seed: u64 },
+    /// replace the sketch by the result of a union fed with it (merge flag set, no HIP) and carry on updating
+    ViaUnion,
 }
 
 #[derive(Debug, Clone, Serialize, Deserialize)]
@@ -49,6 +54,8 @@ pub fn op_strategy() -> impl Strategy<Value = Op> {
         10 => (any::<u16>(), col_strategy()).prop_map(|(row, col)| Op::Coupon { row, col }),
         3 => (0u16..=960, any::<u64>(), proptest::bool::weighted(0.3), proptest::bool::weighted(0.3), proptest::bool::weighted(0.3))
             .prop_map(|(lg_n_x16, seed, warp, dups, swaps)| Op::Sim { lg_n_x16, seed, warp, dups, swaps }),
+        2 => (any::<u16>(), prop_oneof![1u16..=64, 1u16..=2000], 1u16..=400, any::<u64>()).prop_map(|(lo, width, n, seed)| Op::Band { lo, width, n, seed }),
+        1 => Just(Op::ViaUnion),
         4 => (any::<u64>(), col_strategy(), any::<u64>()).prop_map(|(h1, col, r)| {
             // h2 with exactly `col` leading zeros; col 63: 63 or 64 (h2 = 1 or 0)
             let h2 = if col >= 63 { r & 1 } else { ((1u64 << 63) | (r >> 1)) >> col };
@@ -104,6 +111,22 @@ pub fn expand(op: &Op, lg_k: u8, seed: u64, out: &mut Vec<u32>) {
             out.push(rc);
         }
         Op::Digest { h1, h2 } => out.push(refhash::cpc_row_col(&refhash::murmur3_preimage16(*h1, *h2, seed), seed, lg_k)),
+        Op::ViaUnion => {}
+        Op::Band { lo, width, n, seed: s } => {
+            let k = 1u64 << lg_k;
+            let lo_row = (*lo as u64 * k) >> 16;
+            let w = ((*width as u64 * k) >> 16).max(1);
+            let mut sm = SplitMix(*s);
+            for _ in 0..*n {
+                let row = (lo_row + sm.below(w)).min(k - 1) as u32;
+                let col = (sm.next().leading_zeros().min(63)) as u32;
+                let mut rc = (row << 6) | col;
+                if rc == u32::MAX {
+                    rc ^= 1 << 6;
+                }
+                out.push(rc);
+            }
+        }
         Op::Sim { lg_n_x16, seed: s, warp, dups, swaps } => {
             let n = (*lg_n_x16 as f64 / 16.0).exp2();
             let mut sm = SplitMix(*s ^ 0x51);
@@ -252,6 +275,14 @@ pub fn run_case(c: &Case, info: &mut CaseInfo) -> Result<(), Fail> {
     info.label(format!("lg_k={lg_k}"));
     check_state(&sk, &m, true, "fresh sketch")?;
     for (i, op) in c.ops.iter().enumerate() {
+        if matches!(op, Op::ViaUnion) {
+            let mut u = datasketches::cpc::CpcUnion::with_seed(lg_k, c.seed);
+            u.update(&sk);
+            sk = u.to_sketch();
+            info.label("via_union");
+            check_state(&sk, &m, true, &format!("after op #{i} ViaUnion"))?;
+            continue;
+        }
         let mut cs = vec![];
         expand(op, lg_k, c.seed, &mut cs);
         let hashed = matches!(op, Op::Key(_) | Op::Burst { .. } | Op::Digest { .. });
